@@ -926,13 +926,16 @@ def rule_B(ctx):
         ctx.check(bad is None, 'C03.A', f, '%s(nb) moves the instant by nb x %d s and returns a well-formed timestamp (%d start/amount cases)' % (name, u, n), witness=bad, node=f.node, key=name)
 
 
+from ..report import weighed          # noqa: E402
+# (C03.M reads the month-length table where it is written today; when the table lives elsewhere the clause is decided by C03.Y / C03.A,
+# which interpret every day of 1970-2099 - so C03.A runs before it)
 RULES = [
     ('C03.Y', rule_Y, 'quick'),
+    ('C03.A', rule_B, 'quick'),
     ('C03.G', rule_G, 'quick', 'advisory'),
     ('C03.Q', rule_Q, 'quick', 'advisory'),
     ('C03.L', rule_L, 'quick'),
-    ('C03.M', rule_M, 'quick'),
+    ('C03.M', weighed('C03.M', rule_M, ('C03.Y', 'C03.A')), 'quick'),
     ('C03.C', rule_C, 'quick'),
-    ('C03.A', rule_B, 'quick'),
 ]
 MIN_OBLIGATIONS = 12
